@@ -194,8 +194,10 @@ def shapes(tier):
                 quick = (gname == "plain" and (ri in (0, 1, 8, 13, 14, 15) or lname.startswith("constexpr")
                                                and ri % 4 == 2)) or (gname != "plain" and ri in (2, 8))
                 out.append(make_shape(rtag, repr_attr, ty, lname, variants, gname, gdecl, guse, gextra, quick))
-    if tier == "quick":
-        out = [s for s in out if s.quick]
+    # the whole grid costs under a minute (351 programs): both tiers run all of it.  (A hand-picked quick subset had silently lost
+    # `usize` and three other reprs when the repr list grew - seed C12-repr-usize-not-recognised passed it.)
+    for s in out:
+        s.quick = True
     return out
 
 
